@@ -162,10 +162,13 @@ MUTANTS = [
     ("factory3d-drops-poisson-solver-type", "sopht/simulator/flow/flow_simulators_3d.py", "        poisson_solver_type=poisson_solver_type,\n", "", ["C01", "C16"]),
     ("forcing-support-buffer-single-precision", IB + "VirtualBoundaryForcing.py", "eul_grid_support_of_lag_grid_shape, dtype=real_t", "eul_grid_support_of_lag_grid_shape, dtype=np.float32", ["C06"]),
     ("load-skips-eulerian-checks-without-section", "sopht/utils/io.py", "            if self.eulerian_fields:\n                if not self.eulerian_grid_defined:", '            if self.eulerian_fields and "Eulerian" in keys:\n                if not self.eulerian_grid_defined:', ["C17"]),
+    # ninth-round rule C13.h
+    ("filter-ring-cleared-on-first-call-only", E3 + "laplacian_filter_3d.py", '    def scalar_field_multiplicative_filter_kernel_3d(scalar_field: np.ndarray) -> None:\n        """\n        Applies multiplicative Laplacian filter on any scalar field.\n        """\n        set_fixed_val_at_boundaries_3d(field=filter_flux_buffer, fixed_val=0)\n', '    _cleared: list = []\n\n    def scalar_field_multiplicative_filter_kernel_3d(scalar_field: np.ndarray) -> None:\n        """\n        Applies multiplicative Laplacian filter on any scalar field.\n        """\n        if not _cleared:\n            set_fixed_val_at_boundaries_3d(field=filter_flux_buffer, fixed_val=0)\n            _cleared.append(1)\n', ["C13"]),
 ]
 
 # behaviour-preserving edits: every listed check must stay silent
 CONTROLS = [
+    ("filter-call-counter-both-paths-clear", E3 + "laplacian_filter_3d.py", '    def scalar_field_multiplicative_filter_kernel_3d(scalar_field: np.ndarray) -> None:\n        """\n        Applies multiplicative Laplacian filter on any scalar field.\n        """\n        set_fixed_val_at_boundaries_3d(field=filter_flux_buffer, fixed_val=0)\n', '    _calls: list = []\n\n    def scalar_field_multiplicative_filter_kernel_3d(scalar_field: np.ndarray) -> None:\n        """\n        Applies multiplicative Laplacian filter on any scalar field.\n        """\n        _calls.append(1)\n        if len(_calls) > 1:\n            set_fixed_val_at_boundaries_3d(fixed_val=0, field=filter_flux_buffer)\n        else:\n            set_fixed_val_at_boundaries_3d(field=filter_flux_buffer, fixed_val=0)\n', ["C13", "C19"]),
     ("reorder-laplacian-terms", E2 + "diffusion_flux_2d.py", "field[1, 0] + field[-1, 0] + field[0, 1] + field[0, -1] - 4 * field[0, 0]", "field[0, 1] + field[0, -1] - 4 * field[0, 0] + field[-1, 0] + field[1, 0]", ["C04", "C05", "C13", "C16"]),
     ("prefactor-on-the-left", E2 + "outplane_field_curl_2d.py", "curl_x[0, 0] @= (field[1, 0] - field[-1, 0]) * prefactor", "curl_x[0, 0] @= prefactor * field[1, 0] - prefactor * field[-1, 0]", ["C05", "C12", "C13", "C14"]),
     ("one-third-as-two-sixths", E2 + "advection_flux_2d.py", "(1 / 3) * field[0, 1] * velocity_x[0, 1]", "(2 / 6) * field[0, 1] * velocity_x[0, 1]", ["C04", "C05", "C13"]),
